@@ -6,6 +6,9 @@ From Droop Require Import Model.KernelBase Model.Arith Gen.FixedKernels Gen.Guar
 Import ListNotations.
 Open Scope Z_scope.
 
+(* round-up adjustment of the explicit-rounding kernels: one unit iff rounding up and the remainder is non-zero *)
+Definition upadj (up : bool) (rem : Z) : Z := if up && negb (rem =? 0) then 1 else 0.
+
 Record zlike (A : arith) (S : Z) := {
   raw : T A -> Z;
   raw_inj : forall a b, raw a = raw b -> a = b;
@@ -25,12 +28,23 @@ Record zlike (A : arith) (S : Z) := {
   r_eqv_one : forall a n, raw a = n * S -> eqv A a (of_int A 1) = (n =? 1);
   r_kmuldiv0 : forall a b c up, raw c = 0 -> kmuldiv A a b c up = Raise ZeroDivisionError;
   r_eps : 1 <= raw (epsilon A);
-  r_truth : forall a, truth A a = negb (raw a =? 0)
+  r_truth : forall a, truth A a = negb (raw a =? 0);
+  (* V.mul / V.div with explicit rounding (exact comparisons = Fixed, integer, Guarded with guard 0) *)
+  r_kmul : exact A = false -> forall a b up, raw (kmul A a b up) = raw a * raw b / S + upadj up (raw a * raw b mod S);
+  r_kdiv : exact A = false -> forall a b up, raw b <> 0 ->
+           exists c, kdiv A a b up = Ok c /\ raw c = raw a * S / raw b + upadj up (raw a * S mod raw b);
+  r_kdiv0 : exact A = false -> forall a b up, raw b = 0 -> kdiv A a b up = Raise ZeroDivisionError;
+  r_lev_exact : exact A = false -> forall a b, lev A a b = (raw a <=? raw b)
 }.
 Arguments raw {A S}.
 
 Lemma res_true_ok b : res_true (Ok b) = b.
 Proof. destruct b; reflexivity. Qed.
+
+Lemma up_adj_upadj up rem : up_adj (rnd_of up) rem = upadj up rem.
+Proof. unfold up_adj, upadj. destruct up; cbn [rnd_of andb]; destruct (rem =? 0); reflexivity. Qed.
+Lemma rnd_of_ok up : rnd_of up = RUp \/ rnd_of up = RDown.
+Proof. destruct up; [left|right]; reflexivity. Qed.
 
 Lemma pow10_pos'' k : 0 <= k -> 0 < 10 ^ k.
 Proof. intros. apply Z.pow_pos_nonneg; lia. Qed.
@@ -39,7 +53,7 @@ Lemma zlike_fixed p d : 0 <= p -> zlike (Fixed p d) (10 ^ p).
 Proof.
   intros Hp. pose proof (pow10_pos'' p Hp) as HS.
   assert (HS': f_scale (mk_fixed_cls p d) <> 0) by (cbn; lia).
-  refine {| raw := fun a : T (Fixed p d) => (a : Z) |}; cbn [Fixed T of_int add sub mulv divv kmuldiv ltv gev eqv gtv exact rnd_of epsilon truth].
+  refine {| raw := fun a : T (Fixed p d) => (a : Z) |}; cbn [Fixed T of_int add sub mulv divv kmuldiv kmul kdiv ltv lev gev eqv gtv exact epsilon truth].
   - auto.
   - exact HS.
   - intros n. reflexivity.
@@ -58,6 +72,10 @@ Proof.
   - intros a b c up Hc. cbn in Hc. subst c. unfold FixedKernels.muldiv. cbn [FixedKernels.init FixedKernels.init_r]. cbv zeta. unfold pydivmod. cbn [Z.eqb bind]. reflexivity.
   - cbn. lia.
   - intros a. unfold res_true. cbn. destruct (a =? 0); reflexivity.
+  - intros _ a b up. rewrite (mul_k _ HS' a b _ (rnd_of_ok up)). cbn [unres]. rewrite up_adj_upadj. reflexivity.
+  - intros _ a b up Hb. rewrite (div_k _ a b _ (rnd_of_ok up) Hb). eexists; split; [reflexivity|]. rewrite up_adj_upadj. reflexivity.
+  - intros _ a b up Hb. cbn in Hb. subst b. apply (div_k_zero _ a _ (rnd_of_ok up)).
+  - intros _ a b. unfold res_true, FixedKernels.dunder_le, operand_value, bind. destruct (a <=? b); reflexivity.
 Defined.
 
 Lemma zlike_guarded p g d s : 0 <= p -> 0 <= g -> zlike (Guarded p g d s) (10 ^ (p + g)).
@@ -65,7 +83,7 @@ Proof.
   intros Hp Hg. pose proof (pow10_pos'' (p + g) ltac:(lia)) as HS.
   set (st := mk_guarded_cls p g d s).
   assert (HS': g_scale st = 10 ^ (p + g)) by reflexivity.
-  refine {| raw := fun a : T (Guarded p g d s) => (a : Z) |}; cbn [Guarded T of_int add sub mulv divv kmuldiv ltv gev eqv gtv exact rnd_of epsilon truth]; fold st.
+  refine {| raw := fun a : T (Guarded p g d s) => (a : Z) |}; cbn [Guarded T of_int add sub mulv divv kmuldiv kmul kdiv ltv lev gev eqv gtv exact epsilon truth]; fold st.
   - auto.
   - exact HS.
   - intros n. reflexivity.
@@ -112,4 +130,22 @@ Proof.
     unfold pydivmod, pydiv. cbn [Z.eqb bind]. destruct (truthy (g_guard st)); reflexivity.
   - cbn. lia.
   - intros a. unfold res_true. cbn. destruct (a =? 0); reflexivity.
+  - intros Hex a b up.
+    assert (G0: g = 0) by (destruct (g =? 0) eqn:E; [lia|discriminate]). subst g. unfold st.
+    assert (HSf: f_scale (mk_fixed_cls p d) <> 0) by (cbn; pose proof (pow10_pos'' p Hp); lia).
+    destruct (g0_round p d s (OVal a) (OVal b) (OVal 0) _ (rnd_of_ok up)) as (E1 & _). rewrite E1.
+    rewrite (mul_k _ HSf a b _ (rnd_of_ok up)). cbn [unres]. rewrite up_adj_upadj. cbn [f_scale mk_fixed_cls]. rewrite Z.add_0_r. reflexivity.
+  - intros Hex a b up Hb.
+    assert (G0: g = 0) by (destruct (g =? 0) eqn:E; [lia|discriminate]). subst g. unfold st.
+    assert (HSf: f_scale (mk_fixed_cls p d) <> 0) by (cbn; pose proof (pow10_pos'' p Hp); lia).
+    destruct (g0_round p d s (OVal a) (OVal b) (OVal 0) _ (rnd_of_ok up)) as (_ & E2 & _). rewrite E2.
+    rewrite (div_k _ a b _ (rnd_of_ok up) Hb). eexists; split; [reflexivity|]. rewrite up_adj_upadj. cbn [f_scale mk_fixed_cls]. rewrite Z.add_0_r. reflexivity.
+  - intros Hex a b up Hb. cbn in Hb. subst b.
+    assert (G0: g = 0) by (destruct (g =? 0) eqn:E; [lia|discriminate]). subst g. unfold st.
+    destruct (g0_round p d s (OVal a) (OVal 0) (OVal 0) _ (rnd_of_ok up)) as (_ & E2 & _). rewrite E2.
+    apply (div_k_zero _ a _ (rnd_of_ok up)).
+  - intros Hex a b.
+    assert (G0: g = 0) by (destruct (g =? 0) eqn:E; [lia|discriminate]). subst g.
+    destruct (rel_of_cmp st a b) as (_ & _ & _ & _ & E5 & _). rewrite E5, res_true_ok.
+    change (g_geps st) with 1. lia.
 Defined.
